@@ -81,11 +81,42 @@ def aliases(f):
     return out
 
 
+CAP_FIELDS = {'nzlumax', 'nzumax', 'nzlmax'}
+
+
+def cap_field(e):
+    e = strip(e)
+    if e.k == 'Member' and e.a['arrow'] and e.a['name'] in CAP_FIELDS:
+        b = strip(e.c[0])
+        if b.k == 'Ref' and (b.t or '').replace(' ', '').startswith('GlobalLU_t*'):
+            return e.a['name']
+    return None
+
+
+def cap_aliases(f):
+    """local var id -> capacity field it copies (assigned from Glu->nz*max somewhere in f)"""
+    out = {}
+    for n in f.body.walk():
+        if n.k == 'Var' and n.c:
+            fld = cap_field(n.c[0])
+            if fld:
+                out[n.a['id']] = fld
+        elif n.k == 'Assign' and n.a['op'] == '=' and strip(n.c[0]).k == 'Ref':
+            fld = cap_field(n.c[1])
+            if fld:
+                out[strip(n.c[0]).a['id']] = fld
+    return out
+
+
 def check_freshness(chk, cid, prog, mx, f, cfgname):
-    """(b): forward dataflow of the set of stale aliases"""
+    """(b): forward dataflow of the set of stale aliases (array pointers) and stale capacity copies"""
     al = aliases(f)
-    if not al:
+    caps = cap_aliases(f)
+    if not al and not caps:
         return 0
+    al = dict(al)
+    for v, c in caps.items():
+        al.setdefault(v, c)
     cfg = prog.cfg(f)
     # per CFG node: ordered events  ('call', types) | ('fresh', var) | ('use', var, node)
     def events(ast):
@@ -97,7 +128,7 @@ def check_freshness(chk, cid, prog, mx, f, cfgname):
                 l = strip(e2.c[0])
                 visit(e2.c[1])
                 if l.k == 'Ref' and l.a.get('id') in al:
-                    if e2.a['op'] == '=' and glu_field(e2.c[1]) == al[l.a['id']]:
+                    if e2.a['op'] == '=' and (glu_field(e2.c[1]) or cap_field(e2.c[1])) == al[l.a['id']]:
                         ev.append(('fresh', l.a['id']))
                     elif e2.a['op'] == '=':
                         ev.append(('fresh', l.a['id']))      # re-pointed elsewhere: no longer the stale alias
@@ -118,6 +149,12 @@ def check_freshness(chk, cid, prog, mx, f, cfgname):
                 t = mx.of_call(f, e2)
                 if t:
                     ev.append(('call', frozenset(t), e2))
+                if is_xpand(callee_name(e2)):
+                    # ?LUMemXpand(jcol, next, type, &maxlen, Glu) refreshes the caller's copy of the capacity through maxlen
+                    for a in e2.c[1:]:
+                        a = strip(a)
+                        if a.k == 'Unary' and a.a['op'] == '&' and strip(a.c[0]).k == 'Ref' and strip(a.c[0]).a.get('id') in caps:
+                            ev.append(('fresh', strip(a.c[0]).a['id']))
                 return
             if e2.k == 'Ref':
                 if e2.a.get('id') in al:
@@ -142,7 +179,10 @@ def check_freshness(chk, cid, prog, mx, f, cfgname):
             if ev[0] == 'call':
                 minord = min(ORDER[t] for t in ev[1])
                 for v, fld in al.items():
-                    if ORDER[TYPE_OF_FIELD[fld]] >= minord:
+                    if fld in CAP_FIELDS:
+                        if any(fld in CAP_OF[t] for t in ev[1]):
+                            stale.add((v, tuple(sorted(ev[1])), ev[2].line))
+                    elif ORDER[TYPE_OF_FIELD[fld]] >= minord:
                         stale.add((v, tuple(sorted(ev[1])), ev[2].line))
             elif ev[0] == 'fresh':
                 stale = {s for s in stale if s[0] != ev[1]}
@@ -168,6 +208,13 @@ def check_freshness(chk, cid, prog, mx, f, cfgname):
         return ncalls
     for (vid, types), (usenode, st) in sorted(found.items(), key=lambda kv: names[kv[0][0]]):
         fld = al[vid]
+        if fld in CAP_FIELDS:
+            chk.violate(cid, '%s:stale-capacity:%s-after-%s' % (f.name, names[vid], '+'.join(types)), loc(f, usenode), f.name,
+                        'local `%s` is a copy of Glu->%s and is used at line %d after a call at line %d that may expand %s (and so raise that capacity): '
+                        'the test against the old capacity asks for an expansion that is not needed, or - where the copy is later written back - '
+                        'shrinks the recorded capacity below what is allocated; it must be re-read from Glu first'
+                        % (names[vid], fld, usenode.line, st[2], '/'.join(types)), cfgname=cfgname)
+            continue
         chk.violate(cid, '%s:stale-alias:%s-after-%s' % (f.name, names[vid], '+'.join(types)), loc(f, usenode), f.name,
                     'local `%s` aliases Glu->%s and is used at line %d after a call at line %d that may expand %s; growing %s moves %s when the '
                     'arrays live in a caller workspace (and reallocates it under malloc), so the alias must be re-read from Glu first'
